@@ -447,6 +447,9 @@ class C08Executor(readfile.ReadFileExecutor):
         return hasattr(v, "ref") and st.obj(v.ref).kind == "unk" and st.ghost.get(("growing", v.ref))
 
     def get_attr(self, st, base, attr, node):
+        from pyvc.values import VMod
+        if isinstance(base, VMod) and ("bind", base.name, attr) in st.ghost:
+            return [(st, st.ghost[("bind", base.name, attr)])]       # a name this activation has (re)bound in that module
         if attr in self._LIST_GROW and self._grown_list(st, base):
             return [(st, VFunc("bound", base, attr))]        # a list of unknown content: append & co. are total
         if attr == "close" and isinstance(base, VUnk):
@@ -507,6 +510,12 @@ class C08Executor(readfile.ReadFileExecutor):
             del self.sinks[-1][mark:]
             raise Unsupported(f"{self.loc(n)} forking / raising element in generator")
         return [(st, VGen(vars_, z3.And(conds), self.truth(r[0][0], r[0][1]).t))]
+
+    def b_reversed(self, st, args, kwargs, node):
+        if args and isinstance(args[0], VSeq):
+            q = args[0]
+            return [(st, VSeq(q.length, lambda i, q=q: q.elem(q.length - 1 - i), q.ekind, q.is_bytes, tag=("reversed", q.tag)))]
+        return super().b_reversed(st, args, kwargs, node)
 
     def b_any(self, st, args, kwargs, node):
         if args and isinstance(args[0], VGen):
@@ -915,6 +924,7 @@ def install_archive_models(reg):
     reg.method_models[("SevenZipFile", "list")] = lambda ex, st, o, a, k, n: (_exc_any_unless_signal(ex, st.fork(), "SevenZipFile.list", z3.BoolVal(False)), [(st, VUnk("file_list"))])[1]
     reg.attr_models[("Folder", "coders")] = lambda ex, st, o: VSeq(NCOD(o.t), lambda j: VTuple([VExt("CoderId", CID(o.t, j)), VUnk("props")]), "tuple")
     reg.method_models[("CoderId", "startswith")] = m_cid_startswith
+    reg.attr_models[("Folder", "unpack_sizes")] = lambda ex, st, o: VUnk("unpack_sizes")
     # os.path.basename on a str: ASSUMED total and pure
     reg.ext_models["os.path.basename"] = lambda ex, st, args, kwargs, node: [(st, VStr(z3.String(fresh_name("basename"))))]
 
@@ -1082,6 +1092,40 @@ def archive_contracts(reg):
                                 if c.ex.uni.known(aes_signal(c.ex.module.repo)[0]) else z3.BoolVal(False)), is_aes(c.args["coder_id"].t)))],
         note="an AES coder is never decoded / passed through: Bad7zFile"))
     EXECUTOR_KW[f"{SEVEN}::SevenZipReader._apply_decoder"] = {"abstract": True, "inline_calls": False}
+
+    # _decompress_folder: the coder chain of a folder (also of the encoded header's folder) is decoded through _apply_decoder,
+    # coder by coder -- data comes back only if NO coder of the folder is AES
+    def folder_has_aes(fo, upto=None):
+        j = z3.Int("j!dec")
+        return z3.Exists([j], z3.And(j >= 0, j < (NCOD(fo) if upto is None else upto), is_aes(CID(fo, j))))
+
+    def dec_inv(lc):
+        fo = lc.entry.lookup("folder")
+        if not isinstance(fo, VExt):
+            return z3.BoolVal(False)
+        j = z3.Int("j!dinv")
+        n = NCOD(fo.t)
+        # the coders already applied (the last lc.i of the chain) are not AES
+        return z3.ForAll([j], z3.Implies(z3.And(j >= n - lc.i, j < n), z3.Not(is_aes(CID(fo.t, j)))), patterns=[CID(fo.t, j)])
+
+    def dec_signal_only_aes(c):
+        name, dedicated = aes_signal(c.ex.module.repo)
+        if not (dedicated and c.ex.uni.known(name)) or "site" in c.exc.attrs:
+            return z3.BoolVal(True)
+        return z3.Implies(c.ex.uni.subclass_term(c.exc.tidx, name), folder_has_aes(c.args["folder"].t))
+
+    t = f"{SEVEN}::SevenZipReader._decompress_folder"
+    out.append(FnContract(
+        target=t,
+        params=[("self", p_obj("SevenZipReader", {"_archive_file": p_unk()})), ("folder", p_ext("Folder")), ("pack_pos", p_unk()),
+                ("pack_sizes", p_unk()), ("source_file", p_unk())],
+        requires=lambda c: NCOD(c.args["folder"].t) >= 0, modifies=("self",),
+        ensures=[("decoded-data-only-if-no-coder-of-the-folder-is-aes", lambda c: z3.Not(folder_has_aes(c.args["folder"].t)))],
+        raises=[Raises("Exception", sub=True)],
+        exc_ensures=[("encryption-signal-only-if-some-coder-is-aes", dec_signal_only_aes)],
+        loops={0: LoopSpec(inv=dec_inv, label="coder-chain")},
+        note="every coder of the chain goes through _apply_decoder (contract: an AES coder never returns data)"))
+    EXECUTOR_KW[t] = {"abstract": True, "inline_calls": False}
     return out
 
 
@@ -1234,6 +1278,86 @@ def m_pdf_pages(ex, st, obj):
     return VUnk("pages")
 
 
+# ---- PDF: installing the built-in AES into pypdf (patch_pypdf_fallback_aes) --------------------------------
+AESFB = X + "pdf/_pypdf_aes_fallback.py"
+AES_PRIMS = ("aes_ecb_encrypt", "aes_ecb_decrypt", "aes_cbc_encrypt", "aes_cbc_decrypt")
+# ASSUMED view of the installed pypdf (validated natively on every run, see `validate_views`): the modules that hold their
+# OWN binding of the AES primitives (`from ... import aes_cbc_decrypt, ...` executed at import time) and of the one CryptAES class.
+PYPDF_AES_IMPORTERS = ("pypdf._crypt_providers._fallback", "pypdf._crypt_providers", "pypdf._encryption")
+FALLBACK_PROVIDER = "local_crypt_fallback"
+PROVIDER = z3.String("pypdf_crypt_provider_name")
+PyClass = ext_sort("PyClass")
+CRYPTAES_CLASS = z3.Const("pypdf_CryptAES_class", PyClass)      # one class object, bound under the same name in every importer
+
+
+def _setattr_module(ex, st, base, attr, v, node):
+    st.ghost[("bind", base.name, attr)] = v
+    return [st]
+
+
+def _setattr_class(ex, st, base, attr, v, node):
+    st.ghost[("classattr", base.t.get_id(), attr)] = v
+    return [st]
+
+
+def aes_patch_contract(reg):
+    reg.ext_models[("setattr", "mod")] = _setattr_module
+    reg.ext_models[("setattr", "PyClass")] = _setattr_class
+    reg.ext_models[("const", "pypdf._crypt_providers.crypt_provider")] = VTuple([VStr(PROVIDER), VUnk("provider_version")])
+    for m in PYPDF_AES_IMPORTERS:
+        reg.ext_models[("const", f"{m}.CryptAES")] = VExt("PyClass", CRYPTAES_CLASS)
+
+    def bound(c, mod, name):
+        return c.st.ghost.get(("bind", mod, name))
+
+    def is_builtin_prim(v, name):
+        return isinstance(v, VFunc) and v.how == "repo" and v.a == AESFB and v.b == name
+
+    def method_uses(v, callee):
+        """v is a function defined inside the patch function whose body calls the built-in `callee` (or None: any body)."""
+        if not (isinstance(v, VFunc) and v.how == "closure" and isinstance(v.a, ast.FunctionDef)):
+            return False
+        return callee is None or any(isinstance(n, ast.Call) and dotted(n.func) == callee for n in ast.walk(v.a))
+
+    def installed(c):
+        """Every importer resolves the four primitives to the built-in AES, and its CryptAES to a class whose
+        __init__/encrypt/decrypt were replaced by functions of the patch that use the built-in CBC primitives."""
+        missing = []
+        for mod in PYPDF_AES_IMPORTERS:
+            for n in AES_PRIMS:
+                if not is_builtin_prim(bound(c, mod, n), n):
+                    missing.append(f"{mod}.{n}")
+            cls = bound(c, mod, "CryptAES") or VExt("PyClass", CRYPTAES_CLASS)
+            if not (isinstance(cls, VExt) and cls.sort == "PyClass"):
+                missing.append(f"{mod}.CryptAES")
+                continue
+            for meth, callee in (("__init__", None), ("encrypt", "aes_cbc_encrypt"), ("decrypt", "aes_cbc_decrypt")):
+                if not method_uses(c.st.ghost.get(("classattr", cls.t.get_id(), meth)), callee):
+                    missing.append(f"{mod}.CryptAES.{meth}")
+        c.note = ("still bound to pypdf's raising stubs after patch_pypdf_fallback_aes() returned True: " + ", ".join(missing)) if missing else ""
+        return not missing
+
+    def untouched(c):
+        return not any(isinstance(k, tuple) and k and k[0] in ("bind", "classattr") for k in c.st.ghost)
+
+    def post(c):
+        r = c.result
+        if not isinstance(r, VBool) or r.const() is None:
+            return z3.BoolVal(False)
+        if r.const():
+            return z3.And(PROVIDER == sv(FALLBACK_PROVIDER), z3.BoolVal(installed(c)))
+        return z3.And(PROVIDER != sv(FALLBACK_PROVIDER), z3.BoolVal(untouched(c)))
+
+    t = f"{AESFB}::patch_pypdf_fallback_aes"
+    return FnContract(
+        target=t, params=[], raises=[],
+        result_maker=lambda ex, st, ctx: VBool(z3.Bool(fresh_name("patched"))),
+        ensures=[("true-iff-fallback-provider-and-then-every-importer-of-the-aes-names-is-rebound",
+                  lambda c: post(c) if isinstance(c.result, VBool) and c.result.const() is not None else z3.BoolVal(True))],
+        note="returns True exactly on pypdf's fallback provider, and then aes_{ecb,cbc}_{encrypt,decrypt} and CryptAES resolve to the "
+             "built-in AES in EVERY pypdf module that bound them at import time (incl. pypdf._encryption, which does the password check)")
+
+
 def pdf_contracts(reg):
     for k in ("pypdf.PdfReader", "PdfReader"):
         reg.ext_models[("new", k)] = new_pdfreader
@@ -1241,10 +1365,7 @@ def pdf_contracts(reg):
     reg.attr_models[("PdfReader", "pages")] = m_pdf_pages
     reg.method_models[("PdfReader", "decrypt")] = m_pdf_decrypt
     out = []
-    out.append(FnContract(
-        target=X + "pdf/_pypdf_aes_fallback.py::patch_pypdf_fallback_aes", assumed=True, params=[], raises=[],
-        result_maker=lambda ex, st, ctx: VBool(z3.Bool(fresh_name("patched"))),
-        note="ASSUMED total: rebinding of pypdf's AES hooks (the AES itself is C20's subject)"))
+    out.append(aes_patch_contract(reg))
     t = f"{PDF}::_open_pdf_reader"
     out.append(FnContract(
         target=t, params=[("file_like", p_ext("BytesIO"))], modifies=("file_like",),
@@ -1502,10 +1623,64 @@ def policy(repo, tier):
         fns.append(dict(m.fn_info("read_pdf"), obligations=1))
     obls.append(ground_obligation("C08/pdf_extractor.py::read_pdf/policy#aes-provider-ensured-before-decrypt", ok, why, PDF,
                                   definite=bool(f is not None)))
+    # P5: entry point "attachments of an e-mail": the file-encrypted error of an attachment's extractor is passed on, not
+    #     swallowed by the per-attachment `except Exception` (handler order on the real AST)
+    DT = X + "data_types.py"
+    m = loader.module(DT, repo)
+    f = m.functions.get("EmailContent.iterate_supported_attachments")
+    oid = "C08/data_types.py::EmailContent.iterate_supported_attachments/policy#encrypted-error-of-an-attachment-is-passed-on"
+    if f is None:
+        obls.append(ground_obligation(oid, False, "function missing", DT, definite=False))
+    else:
+        tries = [t for t in ast.walk(f) if isinstance(t, ast.Try) and any(isinstance(n, (ast.Yield, ast.YieldFrom)) for b in t.body for n in ast.walk(b))]
+        if len(tries) != 1:
+            obls.append(ground_obligation(oid, False, f"{len(tries)} try statements around the extractor call: shape not recognised", DT, definite=False))
+        else:
+            from pyvc.exctypes import Universe
+            uni_ = Universe(repo or loader.REPO)
+            verdict, why = None, "no handler catches the error: it propagates"
+            for h in tries[0].handlers:
+                names = [ast.unparse(e).split(".")[-1] for e in (h.type.elts if isinstance(h.type, ast.Tuple) else [h.type])] if h.type is not None else ["BaseException"]
+                if any(uni_.known(n) and uni_.is_subclass(ENCERR, n) for n in names):
+                    passes = bool(h.body) and isinstance(h.body[-1], ast.Raise) and (h.body[-1].exc is None or ENCERR in ast.unparse(h.body[-1].exc)) \
+                        and not any(isinstance(n, (ast.Return, ast.Continue, ast.Break)) for b in h.body for n in ast.walk(b))
+                    verdict, why = passes, f"first matching handler `except {', '.join(names)}` at line {h.lineno} " + ("re-raises" if passes else "does not re-raise it")
+                    break
+            outer = [t for t in ast.walk(f) if isinstance(t, ast.Try) and t is not tries[0] and any(n is tries[0] for n in ast.walk(t)) and t.handlers]
+            if outer:
+                obls.append(ground_obligation(oid, False, "enclosing try with handlers: shape not recognised", DT, definite=False))
+            else:
+                obls.append(ground_obligation(oid, verdict is not False, why, DT))
+        fns.append(dict(m.fn_info("EmailContent.iterate_supported_attachments"), obligations=1))
     return {"obligations": obls, "functions": fns}
 
 
-EXTRA = [policy]
+def view_validation(repo, tier):
+    """BOUNDED / validation only (never counted as discharged): the ASSUMED library views are compared with the installed
+    libraries by replay/C08.py::validate_views under /venv/bin/python.  A disagreement means a contract model is stale:
+    UNDECIDED (definite=False), not a violation of the library under test."""
+    import json
+    import os
+    import subprocess
+    root = os.path.dirname(os.path.dirname(os.path.abspath(__file__)))
+    try:
+        p = subprocess.run(["/venv/bin/python", os.path.join(root, "replay", "run.py")], input=json.dumps({"property": "C08", "validate_views": True, "repo": repo}),
+                           capture_output=True, text=True, timeout=300, env=dict(os.environ, VERIF_REPO=repo))
+        facts = json.loads([l for l in p.stdout.splitlines() if l.startswith("{")][-1]).get("facts", [])
+    except Exception as e:  # noqa
+        facts = [{"fact": "validator-ran", "ok": False, "detail": str(e)[:200]}]
+    obls = []
+    for f in facts:
+        o = ground_obligation(f"C08/assumed-views::{f['fact']}/validation#agrees-with-the-installed-library", f["ok"], f["detail"], "replay/C08.py",
+                              kind="validation", backend="native", definite=False)
+        o["bounded"] = True
+        if f["ok"]:
+            o["status"] = "bounded-ok"
+        obls.append(o)
+    return {"obligations": obls, "functions": []}
+
+
+EXTRA = [policy, view_validation]
 
 
 def bounded_chain_check():
